@@ -5,6 +5,8 @@ C12 driver.
                                             one package clause as configured, one `func` line per
                                             function in file order, its directives directly above it)
   accept-cons <file> <asm-hex> <stub-hex> → ok | bad-…  (both outputs carry the same constraint lines)
+  accept-gostub <verdict> …, accept-build <verdict> … → ok iff the harness measured `ok`
+                                            (go/parser, go/types, go/format; go list/build/vet)
 -/
 import AvoVerif.Drv.Print
 namespace Avo.Drv.C12
@@ -71,9 +73,12 @@ def handle : Handler
     let (a, ts) ← txtTok ts
     let (s, _) ← txtTok ts
     some (acceptCons f a s)
+  -- verdicts measured by the harness with the Go toolchain
+  | "accept-gostub" :: r :: _ => some (if r == "ok" then "ok" else "bad-go-toolchain-rejects " ++ r)
+  | "accept-build" :: r :: _ => some (if r == "ok" then "ok" else "bad-build " ++ r)
   | _ => none
 
 def handlers : List (String × Handler) :=
-  ["stubs", "accept-stubs", "accept-cons"].map (·, handle)
+  ["stubs", "accept-stubs", "accept-cons", "accept-gostub", "accept-build"].map (·, handle)
 
 end Avo.Drv.C12
